@@ -381,7 +381,7 @@ fn observe(s: &mut Session, rng: &mut Rng, e: RegLan, size: u32, heavy: bool) {
     let r = guarded_m(&mut s.m, |m| Session::id(m.str_derivative(e, &SmtString::from(&w[..]))));
     s.rec(format!("re str_deriv {} {}", ie, p_nats(&w)), r, true);
 
-    if heavy && size <= 14 {
+    if heavy && size <= 22 {
         let r = guarded_m(&mut s.m, |m| {
             let v: Vec<String> = m.iter_derivatives(e).map(|x| x.verif_id().to_string()).collect();
             format!("[{}]", v.join(","))
@@ -490,8 +490,8 @@ fn random_session(t: &mut Trace, rng: &mut Rng, n_cons: usize, size_cap: u32, ma
     // observations on a sample of the pool
     let pool = s.pool.clone();
     for (k, (e, sz)) in pool.iter().enumerate() {
-        if k % 2 == 0 || *sz <= 6 {
-            observe(&mut s, rng, e, *sz, k % 3 == 0);
+        if k % 2 == 0 || *sz <= 8 {
+            observe(&mut s, rng, e, *sz, k % 3 != 1);
         }
     }
     // inclusion on random ordered pairs
@@ -608,9 +608,9 @@ fn global_session(seed: u64, maxlen: usize) -> Vec<(String, String, bool)> {
 pub fn run(t: &mut Trace, rng: &mut Rng, thorough: bool) {
     t.rule = "sessions on a fresh ReManager: random constructor programs over all 17 public constructors (atoms over a 4-letter test alphabet plus boundary characters; binary and n-ary operators on earlier results, size-capped), after which the full term table is dumped and every operation is replayed by the model by id; observations per term: nullable, derivative classes, membership on random strings, char/class/set/str derivatives at class cut points ±1 and invalid class ids, derivative closure, emptiness, witness, start_char/start_class, regex search, included_in on random ordered pairs. distinct = distinct operation lines; non-trivial = every line except table/bookkeeping lines".into();
     corpus(t);
-    let sessions = if thorough { 400 } else { 40 };
+    let sessions = if thorough { 1200 } else { 100 };
     for k in 0..sessions {
-        let (n_cons, cap) = if k % 4 == 0 { (30, 12) } else { (60, 24) };
+        let (n_cons, cap) = match k % 4 { 0 => (30, 12), 1 => (50, 20), 2 => (70, 30), _ => (90, 40) };
         random_session(t, rng, n_cons, cap, if thorough { 4 } else { 3 });
     }
     let gsessions = if thorough { 200 } else { 20 };
